@@ -256,7 +256,7 @@ pub struct Profile {
     pub len: usize,
     pub w_open: u64, pub w_close: u64, pub w_deposit: u64, pub w_withdraw: u64, pub w_liq: u64,
     pub w_funding: u64, pub w_block: u64, pub w_oracle: u64, pub w_cfg: u64, pub w_malformed: u64,
-    pub w_steer_liq: u64, pub w_pause: u64, pub w_caps: u64, pub w_pcf: u64, pub w_c16: u64, pub w_band: u64,
+    pub w_steer_liq: u64, pub w_pause: u64, pub w_caps: u64, pub w_pcf: u64, pub w_c16: u64, pub w_band: u64, pub w_drain: u64,
 }
 
 impl Profile {
@@ -269,6 +269,7 @@ impl Profile {
             "pause" => { p.w_pause = 8; p.w_malformed = 8; }
             "fluct" => { p.w_close = 20; p.w_block = 8; p.w_band = 10; }
             "pcf" => { p.w_close = 12; p.w_block = 8; p.w_funding = 8; p.w_oracle = 6; p.w_open = 30; p.w_steer_liq = 3; p.w_pcf = 14; }
+            "drain" => { p.w_steer_liq = 18; p.w_liq = 6; p.w_open = 26; p.w_oracle = 6; p.w_drain = 10; }
             "c16" => { p.w_c16 = 16; p.w_open = 30; p.w_steer_liq = 4; }
             _ => {}
         }
@@ -276,7 +277,7 @@ impl Profile {
     }
     pub fn general(len: usize) -> Profile {
         Profile { len, w_open: 36, w_close: 10, w_deposit: 4, w_withdraw: 5, w_liq: 4, w_funding: 5, w_block: 14,
-                  w_oracle: 4, w_cfg: 2, w_malformed: 5, w_steer_liq: 7, w_pause: 1, w_caps: 2, w_pcf: 0, w_c16: 0, w_band: 0 }
+                  w_oracle: 4, w_cfg: 2, w_malformed: 5, w_steer_liq: 7, w_pause: 1, w_caps: 2, w_pcf: 0, w_c16: 0, w_band: 0, w_drain: 0 }
     }
 }
 
@@ -352,10 +353,51 @@ pub fn steer_liquidatable(tr: &mut Tracer, w: &mut World, rng: &mut Rng, v: u32,
     tr.step(w, &Op::Eng { sender: who, funds: 0, m: EMsg::Liq { vamm: v, trader: t, limit } });
 }
 
+/// A profit larger than the vault: a first long is closed after a second one pushed the price up, so the
+/// payout draws on the insurance fund (prepaid bad debt is recorded); the second long is then deep under
+/// water with the vault nearly empty, and is liquidated.
+pub fn drain_macro(tr: &mut Tracer, w: &mut World, rng: &mut Rng, v: u32) {
+    let d = unit(w.d.decimals);
+    let free: Vec<u32> = TRADERS.iter().cloned().filter(|t| w.position(v, *t).is_none()).collect();
+    if free.len() < 3 { return; }
+    let (a, b, c) = (free[0], free[1], free[2]);
+    let q = vamm_state(w, v).quote_asset_reserve.u128();
+    let init = eng_cfg(w).initial_margin_ratio.u128();
+    let max_lev = if init == 0 { 10 * d } else { std::cmp::min(d * d / init, 10 * d) };
+    let li = std::cmp::max(max_lev / d, 1);
+    let lev = li * d;
+    let cap = 2_000_000u128 * d;
+    tr.step(w, &Op::Block { dt: 10 + rng.below(50), dh: 1 });
+    // no caps, no price band, a funded insurance fund: the scenario is about the vault, not about those
+    tr.step(w, &Op::Vamm { sender: ID_OWNER, v, m: VMsg::UpdCfg { hold: Some(0), oi: Some(0), toll: None, spread: None, fluct: Some(0), engine: None, ifund: None, feed: None, twap: None } });
+    tr.step(w, &Op::Tok { sender: ID_OWNER, m: TMsg::Mint { to: ID_IFUND, amt: 10_000_000u128 * d } });
+    // the first long's profit (about na * nb * 1.6 / q) has to exceed the second long's margin nb / leverage
+    let na = q / li / 100 * (70 + rng.below(80) as u128);
+    if na == 0 || na / li > cap { return; }
+    let ma = na * d / lev + 1;
+    let op = mk_open(w, a, v, Side::Buy, ma, lev, 0); if !tr.step(w, &op) { return; }
+    let mb = ma * (80 + rng.below(150) as u128) / 100 + 1;
+    let op = mk_open(w, b, v, Side::Buy, mb, lev, 0); if !tr.step(w, &op) { return; }
+    // a small leveraged long opened at the top: once the first long has sold, its loss exceeds its margin, so the
+    // prepaid amount ends up slightly above the second long's bad debt (by that excess) with the vault empty
+    if rng.chance(3, 4) {
+        let mc = match rng.below(5) { 0 => 1 + rng.below(1000) as u128, 1 => mb / 500 + 1, 2 => mb / 100 + 1, 3 => mb / 30 + 1, _ => mb / 10 + 1 };
+        let op = mk_open(w, c, v, Side::Buy, mc, lev, 0); tr.step(w, &op);
+    }
+    if !tr.step(w, &Op::Eng { sender: a, funds: 0, m: EMsg::Close { vamm: v, limit: 0 } }) { return; }
+    if rng.chance(1, 4) {
+        let mc = match rng.below(4) { 0 => 1 + rng.below(1000) as u128, 1 => ma / 100 + 1, 2 => ma / 20 + 1, _ => d };
+        let who = if w.position(v, c).is_none() { c } else { a };
+        let op = mk_open(w, who, v, if rng.chance(1, 2) { Side::Buy } else { Side::Sell }, mc, d, 0); tr.step(w, &op);
+    }
+    tr.step(w, &Op::Block { dt: 1 + rng.below(20), dh: 1 });
+    steer_liquidatable(tr, w, rng, v, b);
+}
+
 pub fn history(tr: &mut Tracer, w: &mut World, rng: &mut Rng, p: &Profile) {
     let d = unit(w.d.decimals);
     let total = p.w_open + p.w_close + p.w_deposit + p.w_withdraw + p.w_liq + p.w_funding + p.w_block + p.w_oracle
-        + p.w_cfg + p.w_malformed + p.w_steer_liq + p.w_pause + p.w_caps + p.w_pcf + p.w_c16 + p.w_band;
+        + p.w_cfg + p.w_malformed + p.w_steer_liq + p.w_pause + p.w_caps + p.w_pcf + p.w_c16 + p.w_band + p.w_drain;
     for _ in 0..p.len {
         let nv = w.vamms.len() as u64;
         let v = ID_VAMM0 + rng.below(nv) as u32;
@@ -533,6 +575,8 @@ pub fn history(tr: &mut Tracer, w: &mut World, rng: &mut Rng, p: &Profile) {
                 tr.step(w, &op);
             }
             if whole { tr.step(w, &Op::Eng { sender: ID_OWNER, funds: 0, m: EMsg::UpdCfg { owner: None, ifund: None, fpool: None, init: None, maint: None, plr: Some(cfg.partial_liquidation_ratio.u128()), liqfee: None } }); }
+        } else if take(p.w_drain) {
+            drain_macro(tr, w, rng, v);
         } else if take(p.w_c16) {
             // within ONE block: a trader touches (or does not touch) a position, a liquidation happens on the
             // same vAMM, then the trader / the liquidator / a bystander act again
@@ -609,6 +653,7 @@ pub fn run(out: &mut dyn Write, seed: u64, thorough: bool, n_hist: usize, native
             tr.step(&mut w, &Op::Eng { sender: ID_OWNER, funds: 0, m: EMsg::UpdCfg { owner: None, ifund: None, fpool: None, init: None, maint: None, plr: Some(plr), liqfee: None } });
             tr.step(&mut w, &Op::Block { dt: 10, dh: 1 });
         }
+        if profile == "drain" { drain_macro(&mut tr, &mut w, &mut rng, ID_VAMM0); }
         history(&mut tr, &mut w, &mut rng, &Profile::named(profile, len));
         tr.end();
     }
